@@ -141,7 +141,7 @@ def gen_cases(ctx):
     return cases
 
 
-def run(ctx):
+def _run_property(ctx):
     ctx.cov['rule'] = ('notebook triples (local and remote independent edit scripts of a generated base, 30% with format minor versions raised on '
                        'either side) x {mergetool strategy, a random CLI strategy combination, default inline}; non-trivial = at least one decision; '
                        'distinct by (triple, strategy)')
@@ -154,7 +154,24 @@ def run(ctx):
                       found=False, classify=False)
 
 
+MERGE_MODEL_THEOREMS = []
+
+
+def run(ctx):
+    from checks import mergemodel
+    _run_property(ctx)
+    mergemodel.tie(ctx, (50, 30, 600, 300), MERGE_MODEL_THEOREMS)
+
+
 def replay(path):
+    _d = json.load(open(path))['data']
+    if _d.get('kind') == 'correspondence' and _d.get('stream') == 'merge-model':
+        from checks import mergemodel
+        return mergemodel.replay_case(_d)
+    return _replay_property(path)
+
+
+def _replay_property(path):
     data = json.load(open(path))['data']
     ctx = vlib.Ctx('C09', 'quick', 0)
     if 'b' in data:
